@@ -174,8 +174,8 @@ def miri_layer(env, scale, threads=1, prop=None, opts=None, seeds=None, name="mi
             flags += " -Zmiri-many-seeds=%s" % seeds
         e["MIRIFLAGS"] = flags
         cmd = ["cargo", "+nightly", "miri", "run", "--offline", "--bin", "tzmon", "--", prop or env.prop, "--tier", "quick", "--seed", str(env.seed), "--threads", str(threads), "--scale", repr(scale), "--corpus", env.corpus, "--out", out]
-        # wall-clock budget per workload: bounds the volume explored by the slice, never a verdict
-        cmd += ["--budget", str(budget if budget is not None else (4 if env.quick() else 40))]
+        # wall-clock budget of the run: bounds the volume explored by the slice, never a verdict
+        cmd += ["--budget", str(budget if budget is not None else (15 if env.quick() else 300))]
         for k, v in sorted((opts or {}).items()):
             cmd += ["--opt", "%s=%s" % (k, v)]
         try:
